@@ -301,6 +301,14 @@ where
             }
         }
     }
+    if truth_covers && preds_true && sigs_valid && !sc.gas_roomy && est.is_ok() && seq.is_err() {
+        // outside the asserted precondition (gas room); counted so that the reach is visible
+        if tx0.inputs().iter().any(|i| i.predicate_gas_used().is_some_and(|g| g > 1_000_000)) {
+            ctx.stats.inc("probe.estimate_ok_verify_fails_stale_declared_gas");
+        } else {
+            ctx.stats.inc("probe.estimate_ok_verify_fails_tight_tx_gas");
+        }
+    }
     if pred_must_fail && seq.is_ok() {
         let bad: Vec<String> = sc.preds.iter().filter(|p| !(p.truth && p.owner_ok)).map(|p| format!("input {} rule {} owner_ok {}", p.input, p.rule, p.owner_ok)).collect();
         if ctx.violate(
@@ -455,6 +463,7 @@ where
                 return;
             };
             ctx.event("estimate-par", si as u64, r.is_ok() as u64);
+            ctx.note(|| format!("schedule {si}: parallel estimation {:?}; gas per predicate input {:?}", r.as_ref().map_err(|e| format!("{e:?}")), pred_gas(&tx_a)));
             if expect_accept {
                 if let Err(e) = &r {
                     if ctx.violate("estimate-ok", "estimate-ok:parallel", format!("schedule {si}: estimate_predicates_async failed with {e:?} on an all-true transaction")) {
